@@ -14,6 +14,18 @@
 //! Nothing of rustrtc's DTLS code is re-implemented here: the oracle looks only at the state watch,
 //! the pub `SessionKeys` fields, `export_keying_material`, the application-data receiver and the
 //! wire capture.
+//!
+//! Attacker / fault classes beyond single-message tampering and single-datagram faults:
+//!  * C02 "active on-path completion" (`Takeover`): the wire relays the genuine server flight up to an
+//!    insertion point {second ServerKeyExchange, replaced ServerKeyExchange, second Certificate (before /
+//!    after the genuine ServerKeyExchange), ServerKeyExchange before Certificate}, supplies its own ECDH
+//!    share signed by {garbage, an unrelated key, the copied genuine signature, its own certificate's
+//!    key}, cuts the genuine server off and completes the handshake itself (own TLS 1.2 key schedule,
+//!    Finished, AES-GCM records).  The same code holding the genuine private key is the non-vacuity
+//!    control of every such scenario (must connect and deliver its application record).
+//!  * C11 `partial_refrag`: a handshake message is partially reassembled (some fragments of
+//!    occurrence n lost), and all its retransmissions arrive complete but re-fragmented at OTHER
+//!    boundaries; decided by the stall witness like every other plan.
 
 use crate::common::*;
 use bytes::Bytes;
@@ -237,6 +249,21 @@ enum Act {
     Swap,
     Delay(u64),
     Refrag(usize, Order),
+    /// Occurrence n of the datagram: plaintext handshake message number `msg` is split into `k`
+    /// in-order fragments of which those listed in `lose` are lost (everything else of the datagram
+    /// is delivered).  From then on the sender "has another path MTU": every later copy of that
+    /// message (same type and message_seq, i.e. its retransmissions n+1, n+2, ..) is delivered
+    /// completely, split into `k2` in-order fragments - other boundaries than the first time.
+    /// All of that is legal per RFC 6347 4.2.3; only occurrence n loses anything.
+    PartialRefrag { msg: usize, k: usize, lose: Vec<usize>, k2: usize },
+}
+
+#[derive(Clone, Debug)]
+struct Follow {
+    dir: Dir,
+    typ: u8,
+    mseq: u16,
+    k2: usize,
 }
 
 impl Act {
@@ -252,6 +279,7 @@ impl Act {
                 Order::Reversed => json!({"act":"refrag","k":k,"order":"reversed"}),
                 Order::DupFrag(j) => json!({"act":"refrag","k":k,"order":"dup","j":j}),
             },
+            Act::PartialRefrag { msg, k, lose, k2 } => json!({"act":"partial_refrag","msg":msg,"k":k,"lose":lose,"k2":k2}),
         }
     }
     fn from_json(v: &Value) -> Act {
@@ -269,6 +297,12 @@ impl Act {
                 };
                 Act::Refrag(k, o)
             }
+            "partial_refrag" => Act::PartialRefrag {
+                msg: v["msg"].as_u64().unwrap_or(0) as usize,
+                k: v["k"].as_u64().unwrap_or(2) as usize,
+                lose: v["lose"].as_array().map(|a| a.iter().filter_map(|x| x.as_u64()).map(|x| x as usize).collect()).unwrap_or_default(),
+                k2: v["k2"].as_u64().unwrap_or(3) as usize,
+            },
             _ => Act::Pass,
         }
     }
@@ -282,6 +316,10 @@ impl Act {
             Act::Refrag(k, Order::InOrder) => format!("refrag{k}:inorder"),
             Act::Refrag(k, Order::Reversed) => format!("refrag{k}:reversed"),
             Act::Refrag(k, Order::DupFrag(j)) => format!("refrag{k}:dup{j}"),
+            Act::PartialRefrag { msg, k, lose, k2 } => format!(
+                "partial:m{msg}/k{k}/lose{}/then{k2}",
+                lose.iter().map(|x| x.to_string()).collect::<Vec<_>>().join(".")
+            ),
         }
     }
 }
@@ -407,6 +445,63 @@ fn refragment(d: &[u8], k: usize, order: &Order) -> Option<Vec<Vec<u8>>> {
         out.push(o);
     }
     if did { Some(out) } else { None }
+}
+
+/// Per-message legal re-fragmentation.  `sel(i, m)` is asked for every unfragmented plaintext
+/// handshake message of the datagram (i = its index among those); `Some((k, lose))` splits it into k
+/// in-order fragments and drops the fragments whose index is in `lose`.  Every record travels in its
+/// own datagram, order preserved.  Returns the datagrams and the (type, message_seq) of the messages
+/// that were split; None when nothing was split.
+fn refrag_select(d: &[u8], sel: &dyn Fn(usize, &Hs) -> Option<(usize, Vec<usize>)>) -> Option<(Vec<Vec<u8>>, Vec<(u8, u16)>)> {
+    let recs = parse_records(d)?;
+    let mut out: Vec<Vec<u8>> = vec![];
+    let mut hit: Vec<(u8, u16)> = vec![];
+    let mut idx = 0usize;
+    for r in recs {
+        if r.ctype == 22 && r.epoch == 0 {
+            if let Some(ms) = parse_hs(&r.body) {
+                for m in ms {
+                    let l = m.body.len();
+                    let whole = m.off == 0 && m.total as usize == l;
+                    let choice = if whole {
+                        let c = sel(idx, &m);
+                        idx += 1;
+                        c
+                    } else {
+                        None
+                    };
+                    let mut frags: Vec<Hs> = vec![];
+                    match choice {
+                        Some((k, lose)) if l >= 2 => {
+                            let k = k.min(l).max(2);
+                            let mut off = 0usize;
+                            for i in 0..k {
+                                let sz = l / k + if i < l % k { 1 } else { 0 };
+                                if !lose.contains(&i) {
+                                    frags.push(Hs { typ: m.typ, total: l as u32, mseq: m.mseq, off: off as u32, body: m.body[off..off + sz].to_vec() });
+                                }
+                                off += sz;
+                            }
+                            hit.push((m.typ, m.mseq));
+                        }
+                        _ => frags.push(m),
+                    }
+                    for f in frags {
+                        let mut b = vec![];
+                        enc_hs(&f, &mut b);
+                        let mut o = vec![];
+                        enc_record(&Rec { body: b, ..r.clone() }, &mut o);
+                        out.push(o);
+                    }
+                }
+                continue;
+            }
+        }
+        let mut o = vec![];
+        enc_record(&r, &mut o);
+        out.push(o);
+    }
+    if hit.is_empty() { None } else { Some((out, hit)) }
 }
 
 // =====================================================================================
@@ -623,6 +718,393 @@ impl Tamper {
 }
 
 // =====================================================================================
+// C02: active on-path completion ("takeover")
+//
+// The on-path party lets the genuine server answer the ClientHello (HelloVerifyRequest round
+// included), captures the genuine ServerHello / Certificate / ServerKeyExchange / ServerHelloDone,
+// hands the client a flight that contains part of it plus its OWN key-exchange material at one of
+// several insertion points, swallows everything the genuine server says from then on and finishes the
+// handshake ITSELF as the server: ECDH with its own share, master secret (classic or extended) from
+// the all-plaintext transcript, check of the client's Finished, own CCS + Finished, one
+// ApplicationData record.  It is a complete terminating DTLS 1.2 server for
+// TLS_ECDHE_ECDSA_WITH_AES_128_GCM_SHA256, written from RFC 5246 / 5288 / 6347 / 7627 - nothing of
+// rustrtc is used.  Which key signs the inserted ServerKeyExchange is a parameter: with the genuine
+// server's private key the very same code is a legitimate server (non-vacuity control, must connect).
+// =====================================================================================
+
+use aes_gcm::aead::{Aead, KeyInit, Payload};
+use aes_gcm::{Aes128Gcm, Nonce};
+use hmac::{Hmac, Mac};
+use p256::ecdsa::signature::Signer;
+use p256::ecdsa::{Signature as EcdsaSig, SigningKey};
+use p256::elliptic_curve::sec1::ToEncodedPoint;
+use p256::pkcs8::DecodePrivateKey;
+use sha2::{Digest, Sha256};
+
+const ONPATH_PAYLOAD: &[u8] = b"C02-ONPATH-PARTY-APPDATA";
+
+const TAKEOVER_SHAPES: &[&str] = &["ske2", "ske_replace", "cert2_ske2", "cert2_after_ske", "ske_before_cert"];
+
+fn tls_prf(secret: &[u8], label: &[u8], seed: &[u8], out_len: usize) -> Vec<u8> {
+    let mut ls = label.to_vec();
+    ls.extend_from_slice(seed);
+    let mac = |parts: &[&[u8]]| -> Vec<u8> {
+        let mut m = <Hmac<Sha256> as Mac>::new_from_slice(secret).expect("hmac key");
+        for p in parts {
+            m.update(p);
+        }
+        m.finalize().into_bytes().to_vec()
+    };
+    let mut a = mac(&[&ls]);
+    let mut out = vec![];
+    while out.len() < out_len {
+        out.extend_from_slice(&mac(&[&a, &ls]));
+        a = mac(&[&a]);
+    }
+    out.truncate(out_len);
+    out
+}
+
+fn gcm_aad(full_seq: u64, ctype: u8, len: usize) -> [u8; 13] {
+    let mut a = [0u8; 13];
+    a[0..8].copy_from_slice(&full_seq.to_be_bytes());
+    a[8] = ctype;
+    a[9] = 0xfe;
+    a[10] = 0xfd;
+    a[11..13].copy_from_slice(&(len as u16).to_be_bytes());
+    a
+}
+
+fn gcm_seal(key: &[u8], iv: &[u8], full_seq: u64, ctype: u8, plain: &[u8]) -> Option<Vec<u8>> {
+    let mut nonce = [0u8; 12];
+    nonce[0..4].copy_from_slice(iv);
+    nonce[4..12].copy_from_slice(&full_seq.to_be_bytes());
+    let c = Aes128Gcm::new_from_slice(key).ok()?;
+    let sealed = c.encrypt(Nonce::from_slice(&nonce), Payload { msg: plain, aad: &gcm_aad(full_seq, ctype, plain.len()) }).ok()?;
+    let mut out = nonce[4..12].to_vec();
+    out.extend_from_slice(&sealed);
+    Some(out)
+}
+
+fn gcm_open(key: &[u8], iv: &[u8], full_seq: u64, ctype: u8, body: &[u8]) -> Option<Vec<u8>> {
+    if body.len() < 24 || iv.len() != 4 {
+        return None;
+    }
+    let mut nonce = [0u8; 12];
+    nonce[0..4].copy_from_slice(iv);
+    nonce[4..12].copy_from_slice(&body[0..8]);
+    let c = Aes128Gcm::new_from_slice(key).ok()?;
+    c.decrypt(Nonce::from_slice(&nonce), Payload { msg: &body[8..], aad: &gcm_aad(full_seq, ctype, body.len() - 24) }).ok()
+}
+
+struct TkKeys {
+    master: Vec<u8>,
+    cwk: Vec<u8>,
+    swk: Vec<u8>,
+    civ: Vec<u8>,
+    siv: Vec<u8>,
+}
+
+struct Takeover {
+    shape: String,
+    sig: String,
+    my_secret: p256::SecretKey,
+    my_pub: Vec<u8>,
+    /// a key that has nothing to do with any certificate of the scenario
+    unrelated_key: SigningKey,
+    /// the on-path party's own certificate (second Certificate message) and its key
+    own_cert_der: Vec<u8>,
+    own_cert_key: Option<SigningKey>,
+    /// private key of the certificate signalling promised - present only in the authentic variants
+    genuine_key: Option<SigningKey>,
+    // ---- protocol state
+    last_client_hello: Option<Vec<u8>>, // raw handshake message
+    client_random: Vec<u8>,
+    server_random: Vec<u8>,
+    ems: bool,
+    genuine: HashMap<u8, Hs>,
+    transcript: Vec<u8>,
+    flight_sent: bool,
+    flight_desc: Vec<String>,
+    finished_mseq: u16,
+    keys: Option<TkKeys>,
+    done: bool,
+    rec_seq0: u64,
+    // ---- observations
+    client_finished_ok: Option<bool>,
+    sent_finished: bool,
+    swallowed: [u32; 2],
+    notes: Vec<String>,
+}
+
+fn signing_key_from_rng(rng: &mut Rng) -> SigningKey {
+    loop {
+        if let Ok(k) = SigningKey::from_slice(&rng.bytes(32)) {
+            return k;
+        }
+    }
+}
+
+impl Takeover {
+    fn new(shape: &str, sig: &str, seed: u64, own_cert: &Certificate, genuine: Option<&Certificate>) -> Result<Takeover, String> {
+        let mut rng = Rng::new(seed).fork(0x7a6e);
+        let my_secret = loop {
+            if let Ok(k) = p256::SecretKey::from_slice(&rng.bytes(32)) {
+                break k;
+            }
+        };
+        let my_pub = my_secret.public_key().to_encoded_point(false).as_bytes().to_vec();
+        let own_cert_key = SigningKey::from_pkcs8_pem(&own_cert.private_key).ok();
+        let genuine_key = match genuine {
+            Some(c) => Some(SigningKey::from_pkcs8_pem(&c.private_key).map_err(|e| format!("genuine key: {e}"))?),
+            None => None,
+        };
+        Ok(Takeover {
+            shape: shape.to_string(),
+            sig: sig.to_string(),
+            my_secret,
+            my_pub,
+            unrelated_key: signing_key_from_rng(&mut rng),
+            own_cert_der: own_cert.certificate.first().cloned().unwrap_or_default(),
+            own_cert_key,
+            genuine_key,
+            last_client_hello: None,
+            client_random: vec![],
+            server_random: vec![],
+            ems: false,
+            genuine: HashMap::new(),
+            transcript: vec![],
+            flight_sent: false,
+            flight_desc: vec![],
+            finished_mseq: 0,
+            keys: None,
+            done: false,
+            rec_seq0: 0x20_0000,
+            client_finished_ok: None,
+            sent_finished: false,
+            swallowed: [0, 0],
+            notes: vec![],
+        })
+    }
+
+    fn obs(&self) -> Value {
+        json!({"shape": self.shape, "sig": self.sig, "flight_sent": self.flight_sent, "flight": self.flight_desc,
+               "ems": self.ems, "client_finished_verified_by_on_path_party": self.client_finished_ok,
+               "on_path_finished_sent": self.sent_finished, "swallowed": {"c2s": self.swallowed[0], "s2c": self.swallowed[1]},
+               "notes": self.notes})
+    }
+
+    fn hs_record(&mut self, typ: u8, mseq: u16, body: &[u8]) -> Vec<u8> {
+        let mut raw = vec![];
+        enc_hs(&Hs { typ, total: body.len() as u32, mseq, off: 0, body: body.to_vec() }, &mut raw);
+        self.transcript.extend_from_slice(&raw);
+        let mut o = vec![];
+        enc_record(&Rec { ctype: 22, ver: [0xfe, 0xfd], epoch: 0, seq: self.rec_seq0, body: raw }, &mut o);
+        self.rec_seq0 += 1;
+        o
+    }
+
+    /// own ServerKeyExchange: named curve P-256, own share; signature per `self.sig`
+    fn own_ske(&self) -> Option<Vec<u8>> {
+        let genuine_ske = self.genuine.get(&12)?;
+        let gb = &genuine_ske.body;
+        let gpl = *gb.get(3)? as usize;
+        if gb.len() < 4 + gpl + 4 {
+            return None;
+        }
+        let mut params = vec![3u8, 0, 23, self.my_pub.len() as u8];
+        params.extend_from_slice(&self.my_pub);
+        let mut signed = self.client_random.clone();
+        signed.extend_from_slice(&self.server_random);
+        signed.extend_from_slice(&params);
+        let der = |s: EcdsaSig| s.to_der().as_bytes().to_vec();
+        let sig: Vec<u8> = match self.sig.as_str() {
+            "garbage" => der(self.unrelated_key.sign(b"not the key exchange parameters")),
+            "unrelated" => der(self.unrelated_key.sign(&signed)),
+            "copy" => gb[4 + gpl + 4..].to_vec(),
+            "attacker_cert" => der(self.own_cert_key.as_ref()?.sign(&signed)),
+            "genuine" => der(self.genuine_key.as_ref()?.sign(&signed)),
+            _ => return None,
+        };
+        let mut body = params;
+        body.extend_from_slice(&gb[4 + gpl..4 + gpl + 2]); // signature algorithm as the genuine server announced it
+        body.extend_from_slice(&(sig.len() as u16).to_be_bytes());
+        body.extend_from_slice(&sig);
+        Some(body)
+    }
+
+    fn build_flight(&mut self) -> Option<Vec<Vec<u8>>> {
+        let sh = self.genuine.get(&2)?.clone();
+        let cert = self.genuine.get(&11)?.clone();
+        let ske = self.genuine.get(&12)?.clone();
+        let ske2 = self.own_ske()?;
+        let cert2 = if self.sig == "genuine" { cert.body.clone() } else { cert_list(&[&self.own_cert_der]) };
+        let seq: Vec<(u8, Vec<u8>, &str)> = match self.shape.as_str() {
+            "ske2" => vec![(2, sh.body, "ServerHello"), (11, cert.body, "Certificate"), (12, ske.body, "ServerKeyExchange"), (12, ske2, "ServerKeyExchange*"), (14, vec![], "ServerHelloDone")],
+            "ske_replace" => vec![(2, sh.body, "ServerHello"), (11, cert.body, "Certificate"), (12, ske2, "ServerKeyExchange*"), (14, vec![], "ServerHelloDone")],
+            "cert2_ske2" => vec![(2, sh.body, "ServerHello"), (11, cert.body, "Certificate"), (11, cert2, "Certificate*"), (12, ske2, "ServerKeyExchange*"), (14, vec![], "ServerHelloDone")],
+            "cert2_after_ske" => vec![(2, sh.body, "ServerHello"), (11, cert.body, "Certificate"), (12, ske.body, "ServerKeyExchange"), (11, cert2, "Certificate*"), (12, ske2, "ServerKeyExchange*"), (14, vec![], "ServerHelloDone")],
+            "ske_before_cert" => vec![(2, sh.body, "ServerHello"), (12, ske2, "ServerKeyExchange*"), (11, cert.body, "Certificate"), (14, vec![], "ServerHelloDone")],
+            _ => return None,
+        };
+        self.transcript = self.last_client_hello.clone()?;
+        let mut mseq = sh.mseq;
+        let mut out = vec![];
+        for (typ, body, name) in seq {
+            out.push(self.hs_record(typ, mseq, &body));
+            self.flight_desc.push(format!("{name}[{mseq}]"));
+            mseq = mseq.wrapping_add(1);
+        }
+        self.finished_mseq = mseq;
+        Some(out)
+    }
+
+    fn on_client_key_exchange(&mut self, m: &Hs) {
+        let mut raw = vec![];
+        enc_hs(m, &mut raw);
+        self.transcript.extend_from_slice(&raw);
+        let Some(&l) = m.body.first() else { return };
+        let Some(pk) = m.body.get(1..1 + l as usize) else { return };
+        let Ok(peer) = p256::PublicKey::from_sec1_bytes(pk) else {
+            self.notes.push("ClientKeyExchange: not a P-256 point".into());
+            return;
+        };
+        let shared = p256::ecdh::diffie_hellman(self.my_secret.to_nonzero_scalar(), peer.as_affine());
+        let pms = shared.raw_secret_bytes();
+        let (cr, sr) = (self.client_random.clone(), self.server_random.clone());
+        let master = if self.ems {
+            tls_prf(pms, b"extended master secret", &Sha256::digest(&self.transcript), 48)
+        } else {
+            tls_prf(pms, b"master secret", &[cr.clone(), sr.clone()].concat(), 48)
+        };
+        let kb = tls_prf(&master, b"key expansion", &[sr, cr].concat(), 40);
+        self.keys = Some(TkKeys { master, cwk: kb[0..16].to_vec(), swk: kb[16..32].to_vec(), civ: kb[32..36].to_vec(), siv: kb[36..40].to_vec() });
+    }
+
+    /// returns (destination direction, datagram, delay in ms)
+    fn on_datagram(&mut self, dir: Dir, d: &[u8]) -> Vec<(Dir, Vec<u8>, u64)> {
+        let Some(recs) = parse_records(d) else {
+            self.swallowed[dir as usize] += 1;
+            return vec![];
+        };
+        if !self.flight_sent {
+            // ---- phase 1: transparent relay while the genuine flight is being collected
+            for r in &recs {
+                if r.ctype != 22 || r.epoch != 0 {
+                    continue;
+                }
+                for m in parse_hs(&r.body).unwrap_or_default() {
+                    if m.off != 0 || m.total as usize != m.body.len() {
+                        continue;
+                    }
+                    match (dir, m.typ) {
+                        (Dir::C2S, 1) if m.body.len() >= 34 => {
+                            self.client_random = m.body[2..34].to_vec();
+                            let mut raw = vec![];
+                            enc_hs(&m, &mut raw);
+                            self.last_client_hello = Some(raw);
+                        }
+                        (Dir::S2C, 2) if m.body.len() >= 35 => {
+                            self.server_random = m.body[2..34].to_vec();
+                            // extensions: extended_master_secret (23) echoed?
+                            let sid = m.body[34] as usize;
+                            let mut i = 35 + sid + 2 + 1; // session id, cipher suite, compression
+                            if m.body.len() >= i + 2 {
+                                i += 2;
+                                while i + 4 <= m.body.len() {
+                                    let t = u16::from_be_bytes([m.body[i], m.body[i + 1]]);
+                                    let l = u16::from_be_bytes([m.body[i + 2], m.body[i + 3]]) as usize;
+                                    if t == 23 {
+                                        self.ems = true;
+                                    }
+                                    i += 4 + l;
+                                }
+                            }
+                            self.genuine.insert(2, m);
+                        }
+                        (Dir::S2C, 11) | (Dir::S2C, 12) | (Dir::S2C, 14) => {
+                            self.genuine.entry(m.typ).or_insert(m);
+                        }
+                        _ => {}
+                    }
+                }
+            }
+            if dir == Dir::C2S {
+                return vec![(Dir::C2S, d.to_vec(), 0)];
+            }
+            let is_server_flight = recs.iter().any(|r| {
+                r.ctype == 22 && r.epoch == 0 && parse_hs(&r.body).unwrap_or_default().iter().any(|m| matches!(m.typ, 2 | 11 | 12 | 14))
+            });
+            if !is_server_flight {
+                return vec![(Dir::S2C, d.to_vec(), 0)]; // HelloVerifyRequest and the like
+            }
+            if [2u8, 11, 12, 14].iter().all(|t| self.genuine.contains_key(t)) {
+                match self.build_flight() {
+                    Some(f) => {
+                        self.flight_sent = true;
+                        return f.into_iter().map(|x| (Dir::S2C, x, 0)).collect();
+                    }
+                    None => self.notes.push("could not build the flight".into()),
+                }
+            }
+            return vec![];
+        }
+        // ---- phase 2: the genuine server is cut off, the on-path party is the server
+        if dir == Dir::S2C {
+            self.swallowed[1] += 1;
+            return vec![];
+        }
+        self.swallowed[0] += 1;
+        let mut out = vec![];
+        for r in &recs {
+            if r.ctype == 22 && r.epoch == 0 {
+                for m in parse_hs(&r.body).unwrap_or_default() {
+                    if m.typ == 16 && m.off == 0 && m.total as usize == m.body.len() && self.keys.is_none() {
+                        self.on_client_key_exchange(&m);
+                    }
+                }
+            } else if r.ctype == 22 && r.epoch == 1 && !self.done {
+                let Some(k) = &self.keys else { continue };
+                let full = (1u64 << 48) | r.seq;
+                let Some(plain) = gcm_open(&k.cwk, &k.civ, full, 22, &r.body) else {
+                    self.client_finished_ok = Some(false);
+                    self.notes.push("client Finished does not open under the on-path party's keys".into());
+                    continue;
+                };
+                let expect = tls_prf(&k.master, b"client finished", &Sha256::digest(&self.transcript), 12);
+                let ok = plain.len() == 24 && plain[12..] == expect[..];
+                self.client_finished_ok = Some(ok);
+                if !ok {
+                    self.notes.push("client Finished verify_data differs from the on-path party's transcript".into());
+                    continue;
+                }
+                self.transcript.extend_from_slice(&plain);
+                let verify = tls_prf(&k.master, b"server finished", &Sha256::digest(&self.transcript), 12);
+                let mut fin = vec![];
+                enc_hs(&Hs { typ: 20, total: 12, mseq: self.finished_mseq, off: 0, body: verify }, &mut fin);
+                let (Some(fin_body), Some(app_body)) = (
+                    gcm_seal(&k.swk, &k.siv, 1u64 << 48, 22, &fin),
+                    gcm_seal(&k.swk, &k.siv, (1u64 << 48) | 1, 23, ONPATH_PAYLOAD),
+                ) else {
+                    continue;
+                };
+                let mut dg = vec![];
+                enc_record(&Rec { ctype: 20, ver: [0xfe, 0xfd], epoch: 0, seq: self.rec_seq0, body: vec![1] }, &mut dg);
+                self.rec_seq0 += 1;
+                enc_record(&Rec { ctype: 22, ver: [0xfe, 0xfd], epoch: 1, seq: 0, body: fin_body }, &mut dg);
+                out.push((Dir::S2C, dg, 0));
+                let mut app = vec![];
+                enc_record(&Rec { ctype: 23, ver: [0xfe, 0xfd], epoch: 1, seq: 1, body: app_body }, &mut app);
+                out.push((Dir::S2C, app, 120));
+                self.sent_finished = true;
+                self.done = true;
+            }
+        }
+        out
+    }
+}
+
+// =====================================================================================
 // the wire
 // =====================================================================================
 
@@ -666,6 +1148,8 @@ struct WireShared {
     /// post-heal retransmitted datagrams whose records all reuse an (epoch, seq) this side used before / not
     post_heal_replays: [u32; 2],
     post_heal_fresh: [u32; 2],
+    takeover_obs: Option<Value>,
+    follow_applied: u32,
 }
 
 impl WireShared {
@@ -690,6 +1174,8 @@ struct Wire {
     t0: Instant,
     mode: Mode,
     tamper: Option<Tamper>,
+    takeover: Option<Takeover>,
+    follow: Vec<Follow>,
     sinks: [Sink; 2], // index = destination of Dir (C2S -> server sink = [0], S2C -> client sink = [1])
     shared: Arc<Mutex<WireShared>>,
     pending: Arc<AtomicUsize>,
@@ -791,6 +1277,35 @@ impl Wire {
             }
         }
 
+        // ---- C02 on-path completion: the on-path party decides what each side gets to see
+        if let Some(tk) = self.takeover.as_mut() {
+            let sent_before = tk.flight_sent;
+            let outs = tk.on_datagram(dir, &d);
+            let what = if !sent_before && tk.flight_sent {
+                "on-path flight sent"
+            } else if outs.is_empty() {
+                "swallowed"
+            } else if tk.flight_sent {
+                "answered by on-path party"
+            } else {
+                "relayed"
+            };
+            self.shared.lock().takeover_obs = Some(tk.obs());
+            self.log(dir, &class, d.len(), what);
+            for (to, bytes, delay) in outs {
+                if delay == 0 {
+                    self.sinks[to as usize].deliver(bytes).await;
+                } else {
+                    let sink = self.sinks[to as usize].clone();
+                    tokio::spawn(async move {
+                        tokio::time::sleep(Duration::from_millis(delay)).await;
+                        sink.deliver(bytes).await;
+                    });
+                }
+            }
+            return;
+        }
+
         // ---- C02 tampering (no fault plan in that mode)
         if let Some(t) = self.tamper.as_mut() {
             let before = t.applied;
@@ -845,8 +1360,46 @@ impl Wire {
         // ---- build what goes out for this datagram
         let mut outs: Vec<Vec<u8>> = vec![];
         let mut fired_desc: Option<String> = None;
+        let mut follow_note = false;
         match &act {
-            Act::Pass => outs.push(self.renumber(dir, d.clone())),
+            Act::Pass => {
+                // a message that was partially lost before keeps arriving in k2 in-order fragments
+                let fl: Vec<Follow> = self.follow.iter().filter(|f| f.dir == dir).cloned().collect();
+                let split = if fl.is_empty() {
+                    None
+                } else {
+                    refrag_select(&d, &|_, m| fl.iter().find(|f| f.typ == m.typ && f.mseq == m.mseq).map(|f| (f.k2, vec![])))
+                };
+                match split {
+                    Some((parts, _)) => {
+                        for p in parts {
+                            let p = self.renumber(dir, p);
+                            outs.push(p);
+                        }
+                        self.shared.lock().follow_applied += 1;
+                        follow_note = true;
+                    }
+                    None => outs.push(self.renumber(dir, d.clone())),
+                }
+            }
+            Act::PartialRefrag { msg, k, lose, k2 } => {
+                match refrag_select(&d, &|i, _| if i == *msg { Some((*k, lose.clone())) } else { None }) {
+                    Some((parts, hit)) => {
+                        for p in parts {
+                            let p = self.renumber(dir, p);
+                            outs.push(p);
+                        }
+                        for (typ, mseq) in hit {
+                            self.follow.push(Follow { dir, typ, mseq, k2: *k2 });
+                        }
+                        fired_desc = Some(format!("{}@{}:{}#{}", act.short(), dir.name(), class, occ));
+                    }
+                    None => {
+                        self.shared.lock().refrag_not_applicable += 1;
+                        outs.push(self.renumber(dir, d.clone()));
+                    }
+                }
+            }
             Act::Drop => {
                 fired_desc = Some(format!("drop@{}:{}#{}", dir.name(), class, occ));
             }
@@ -878,7 +1431,7 @@ impl Wire {
             self.last_fire = Instant::now();
             self.shared.lock().fired.push(f.clone());
         }
-        self.log(dir, &class, d.len(), fired_desc.as_deref().unwrap_or("pass"));
+        self.log(dir, &class, d.len(), fired_desc.as_deref().unwrap_or(if follow_note { "delivered re-fragmented (k2)" } else { "pass" }));
 
         // ---- deliver (a datagram held for a swap goes out right after its successor)
         match act {
@@ -1393,6 +1946,7 @@ struct RigCfg {
     pair: String, // "rr" | "rust_client_ref_server" | "ref_client_rust_server"
     mode: Mode,
     tamper: Option<Tamper>,
+    takeover: Option<Takeover>,
     client_cert: Option<Certificate>,
     server_cert: Option<Certificate>,
     client_expect: Option<String>,
@@ -1444,7 +1998,7 @@ async fn build_rig(cfg: RigCfg) -> Result<Rig, String> {
     };
     let shared = Arc::new(Mutex::new(WireShared::default()));
     let renumber = match &cfg.mode {
-        Mode::Rules(r) => r.iter().any(|x| matches!(x.act, Act::Refrag(..))),
+        Mode::Rules(r) => r.iter().any(|x| matches!(x.act, Act::Refrag(..) | Act::PartialRefrag { .. })),
         Mode::Random(p) => p.refrag > 0,
     } || cfg.force_renumber;
     let t0 = Instant::now();
@@ -1452,6 +2006,8 @@ async fn build_rig(cfg: RigCfg) -> Result<Rig, String> {
         t0,
         mode: cfg.mode,
         tamper: cfg.tamper,
+        takeover: cfg.takeover,
+        follow: vec![],
         sinks: [server_sink, client_sink],
         shared: shared.clone(),
         pending: Arc::new(AtomicUsize::new(0)),
@@ -1533,6 +2089,8 @@ fn coarse_fault(f: &str) -> String {
     let act = if act.starts_with("refrag") {
         let o = act.split(':').nth(1).unwrap_or("");
         if o.starts_with("dup") { "refrag_dup".to_string() } else { format!("refrag_{o}") }
+    } else if act.starts_with("partial") {
+        "partial_refrag".to_string()
     } else {
         act.to_string()
     };
@@ -1561,6 +2119,7 @@ async fn run_c11(sc: Value) -> Outcome {
         pair: pair.clone(),
         mode,
         tamper: None,
+        takeover: None,
         client_cert: None,
         server_cert: None,
         client_expect: None,
@@ -1732,12 +2291,13 @@ async fn run_c11(sc: Value) -> Outcome {
         ("retransmissions_seen".to_string(), g.retx_total as u64),
         ("app_records_forwarded".to_string(), (g.delivered_app[0] + g.delivered_app[1]) as u64),
         ("refrag_not_applicable".to_string(), g.refrag_not_applicable as u64),
+        ("retransmissions_delivered_refragmented_at_other_boundaries".to_string(), g.follow_applied as u64),
         (format!("pair:{pair}"), 1),
     ];
     let mut sets = vec![];
     for f in &g.fired {
         let act = f.split('@').next().unwrap_or("");
-        counts.push((format!("fired:{}", act.split(|c: char| c.is_ascii_digit()).next().unwrap_or(act)), 1));
+        counts.push((format!("fired:{}", act.split(|c: char| c.is_ascii_digit() || c == ':').next().unwrap_or(act)), 1));
         sets.push(("fault_rules_fired", format!("{pair}:{}", f)));
     }
     for c in &g.classes {
@@ -1751,6 +2311,7 @@ async fn run_c11(sc: Value) -> Outcome {
     let obs = json!({"pair": pair, "fired": g.fired, "retx": g.retx_total, "dur_ms": dur,
         "connected_at_ms": {"client": connected_at[0].map(|x| x as u64), "server": connected_at[1].map(|x| x as u64)},
         "healed_at_ms": g.healed_at.map(|h| h.duration_since(rig.t0).as_millis() as u64),
+        "retransmissions_delivered_refragmented": g.follow_applied,
         "datagrams": {"c2s": g.n_datagrams[0], "s2c": g.n_datagrams[1]}, "log": g.log.iter().take(40).collect::<Vec<_>>()});
     let nontrivial = !g.fired.is_empty();
     drop(g);
@@ -1796,7 +2357,161 @@ async fn markers(rig: &mut Rig, pair: &str) -> Verdict {
 // C02 oracle
 // =====================================================================================
 
+/// what the client under test showed in one run against the on-path party
+struct TkRun {
+    end: St,
+    ever: bool,
+    states: Vec<&'static str>,
+    ekm_ok: bool,
+    data: Vec<Vec<u8>>,
+    attacker: Value,
+    flight_sent: bool,
+    log: Vec<Value>,
+}
+
+async fn takeover_once(shape: &str, sig: &str, seed: u64, cutoff: Duration) -> Result<TkRun, String> {
+    let gen_cert = || rdtls::generate_certificate().map_err(|e| format!("generate_certificate: {e}"));
+    let (genuine, attacker_cert, own) = (gen_cert()?, gen_cert()?, gen_cert()?);
+    let expectation = rdtls::fingerprint(&genuine);
+    let tk = Takeover::new(shape, sig, seed, &attacker_cert, if sig == "genuine" { Some(&genuine) } else { None })?;
+    let mut rig = build_rig(RigCfg {
+        pair: "rr".into(),
+        mode: Mode::Rules(vec![]),
+        tamper: None,
+        takeover: Some(tk),
+        client_cert: Some(own),
+        server_cert: Some(genuine),
+        client_expect: Some(expectation),
+        server_expect: None,
+        force_renumber: false,
+    })
+    .await?;
+    let mut end;
+    loop {
+        tokio::time::sleep(Duration::from_millis(10)).await;
+        end = rig.client.st();
+        if matches!(end, St::Connected | St::Failed | St::Closed) || rig.t0.elapsed() > cutoff {
+            break;
+        }
+    }
+    // the on-path party's application record follows its Finished by 120 ms
+    tokio::time::sleep(Duration::from_millis(if end == St::Connected { 400 } else { 150 })).await;
+    let Ep::Rust(e) = &mut rig.client else {
+        return Err("not a rustrtc endpoint".into());
+    };
+    let st = e.st();
+    if matches!(st, St::Connected | St::Failed | St::Closed) {
+        end = st;
+    }
+    let mut data: Vec<Vec<u8>> = vec![];
+    while let Ok(b) = e.rx.try_recv() {
+        data.push(b.to_vec());
+    }
+    let ever = e.ever_connected.load(Ordering::SeqCst);
+    let states = e.states_seen.lock().clone();
+    let ekm_ok = e.dtls.export_keying_material(EKM_LABEL, EKM_LEN).is_ok();
+    let g = rig.shared.lock();
+    let attacker = g.takeover_obs.clone().unwrap_or(json!({}));
+    Ok(TkRun {
+        end,
+        ever,
+        states,
+        ekm_ok,
+        data,
+        flight_sent: attacker["flight_sent"].as_bool().unwrap_or(false),
+        attacker,
+        log: g.log.iter().take(30).cloned().collect(),
+    })
+}
+
+/// C02, client role, expectation = fingerprint of the genuine server, active on-path completion.
+async fn run_c02_takeover(sc: Value) -> Outcome {
+    let shape = sc["takeover"]["shape"].as_str().unwrap_or("ske2").to_string();
+    let sig = sc["takeover"]["sig"].as_str().unwrap_or("garbage").to_string();
+    let seed = sc["bit"].as_u64().unwrap_or(0);
+    let cutoff = Duration::from_millis(sc["cutoff_ms"].as_u64().unwrap_or(4000));
+    let tag = format!("role=client,expect=correct,on_path_completion={shape},ske_signature={sig}");
+    let authentic = sig == "genuine";
+    let mut counts: Vec<(String, u64)> = vec![("role:client".into(), 1)];
+    let mut sets = vec![("expectations", "client:correct:on_path_completion".to_string())];
+
+    // ---- non-vacuity: the same on-path code, holding the genuine server's private key, is a
+    // legitimate terminating server and must get through (handshake + application record)
+    if !authentic {
+        let mut ok = false;
+        let mut why = String::new();
+        for attempt in 0..2u64 {
+            match takeover_once("ske_replace", "genuine", seed ^ (0xC0 + attempt), cutoff).await {
+                Ok(r) if r.ever && r.data.iter().any(|d| d == ONPATH_PAYLOAD) => {
+                    ok = true;
+                    break;
+                }
+                Ok(r) => why = format!("end={} attacker={}", r.end.name(), r.attacker),
+                Err(e) => why = e,
+            }
+        }
+        if !ok {
+            return inconclusive(format!("{tag}: control (on-path code with the genuine key) did not connect: {why}"));
+        }
+        counts.push(("on_path_control_connected".into(), 1));
+    }
+    let r = match takeover_once(&shape, &sig, seed, cutoff).await {
+        Ok(r) => r,
+        Err(e) => return inconclusive(format!("rig: {e}")),
+    };
+    counts.push((format!("end_state:{}", r.end.name()), 1));
+    sets.push(("on_path_completion_classes", format!("{shape}:{sig}:{}", if r.flight_sent { "flight_delivered" } else { "not_reached" })));
+    let witness = json!({"states_seen": r.states, "end": r.end.name(), "ever_connected": r.ever, "ekm_exported": r.ekm_ok,
+        "appdata_yielded": r.data.iter().map(|d| hex_cap(d, 48)).collect::<Vec<_>>(), "on_path_party": r.attacker, "wire": r.log});
+    let verdict = if authentic {
+        if r.ever {
+            counts.push(("authentic_connected".into(), 1));
+            Verdict::Held
+        } else if shape == "ske_replace" {
+            Verdict::Inconclusive(format!("{tag}: legitimate terminating server did not connect (end={})", r.end.name()))
+        } else {
+            // the peer proved possession, but the message sequence is unusual: the statement does not promise Connected
+            counts.push((format!("observe_only:authentic_but_unusual_flight,shape={shape},connected=false"), 1));
+            Verdict::Held
+        }
+    } else if r.ever || r.end == St::Connected {
+        Verdict::violated(
+            format!("{tag},accepted=connected"),
+            "client reached Connected with an on-path party that relayed the promised certificate but never proved possession of its key",
+            witness.clone(),
+        )
+    } else if r.ekm_ok {
+        Verdict::violated(format!("{tag},ekm=exported"), "keying material exported without an authenticated peer", witness.clone())
+    } else if !r.data.is_empty() {
+        Verdict::violated(format!("{tag},appdata=accepted"), "application data accepted without an authenticated peer", witness.clone())
+    } else {
+        match r.end {
+            St::Failed => {
+                counts.push(("rejected:ended_failed".into(), 1));
+                Verdict::Held
+            }
+            St::Closed => {
+                counts.push(("rejected:ended_closed".into(), 1));
+                Verdict::Held
+            }
+            _ => {
+                counts.push(("rejected:still_handshaking_at_cutoff".into(), 1));
+                if cutoff >= Duration::from_secs(31) {
+                    Verdict::Inconclusive(format!("{tag}: neither Connected nor Failed after {} ms", cutoff.as_millis()))
+                } else {
+                    Verdict::Held
+                }
+            }
+        }
+    };
+    let nontrivial = r.flight_sent;
+    Outcome { verdict, nontrivial, obs: json!({"scenario": tag, "end": r.end.name(), "states": witness["states_seen"], "on_path_party": witness["on_path_party"]}), counts, sets }
+}
+
 async fn run_c02(sc: Value) -> Outcome {
+    if sc["takeover"].is_object() {
+        return run_c02_takeover(sc).await;
+    }
     let role = sc["role"].as_str().unwrap_or("client").to_string();
     let expect = sc["expect"].as_str().unwrap_or("absent").to_string();
     let peer = sc["peer"].as_str().unwrap_or("genuine").to_string();
@@ -1868,6 +2583,7 @@ async fn run_c02(sc: Value) -> Outcome {
         pair: "rr".into(),
         mode: Mode::Rules(vec![]),
         tamper: Some(t),
+        takeover: None,
         client_cert: Some(client_cert),
         server_cert: Some(server_cert),
         client_expect,
@@ -2040,6 +2756,20 @@ fn c02_scenarios(tier: Tier, rng: &mut Rng) -> Vec<Value> {
                       "bit": rng.below(4096), "inject": true, "cutoff_ms": cutoff.min(6000)}));
         v.push(json!({"prop":"C02","role":"server","expect":"random","peer":"genuine","tamper":"fin_omit",
                       "bit": rng.below(4096), "inject": true, "cutoff_ms": cutoff.min(6000)}));
+        // active on-path completion: the genuine flight is relayed up to an insertion point, then the
+        // on-path party supplies its own key-exchange material and finishes the handshake itself
+        for shape in TAKEOVER_SHAPES {
+            let sigs: &[&str] = match *shape {
+                "ske2" | "ske_replace" => &["garbage", "unrelated", "copy", "genuine"],
+                "cert2_ske2" => &["attacker_cert", "unrelated", "genuine"],
+                "cert2_after_ske" => &["attacker_cert", "genuine"],
+                _ => &["attacker_cert", "unrelated", "genuine"],
+            };
+            for sig in sigs {
+                v.push(json!({"prop":"C02","role":"client","expect":"correct","takeover":{"shape":shape,"sig":sig},
+                              "bit": rng.below(1 << 32), "cutoff_ms": cutoff.min(6000)}));
+            }
+        }
     }
     v
 }
@@ -2077,6 +2807,59 @@ fn c11_scenarios(tier: Tier, rng: &mut Rng, pair: &str, disc: &[(Dir, String, u3
     // the same datagram lost twice in a row (original and first retransmission)
     for (dir, class, occ) in disc {
         v.push(json!({"prop":"C11","pair":pair,"plan":[rule_json(*dir, class, *occ, &Act::Drop), rule_json(*dir, class, *occ + 1, &Act::Drop)]}));
+    }
+    // partial reassembly, then the retransmission arrives re-fragmented at other boundaries:
+    // (k, lost fragments, k2) for every plaintext handshake message of every datagram class.
+    // quick: lose tail / lose middle, each with the new first boundary before and behind the stale prefix
+    let partial_variants: Vec<(usize, Vec<usize>, usize)> = if tier == Tier::Thorough {
+        let mut pv = vec![];
+        for k in 2..=4usize {
+            // every non-empty set of lost fragments (fragment 0 kept: a stale prefix exists) + "only fragment 0 lost"
+            for mask in 1u32..(1 << k) {
+                let lose: Vec<usize> = (0..k).filter(|i| mask & (1 << i) != 0).collect();
+                if lose.contains(&0) && lose.len() != 1 {
+                    continue;
+                }
+                for k2 in 2..=4usize {
+                    if k2 != k {
+                        pv.push((k, lose.clone(), k2));
+                    }
+                }
+            }
+        }
+        pv
+    } else {
+        vec![(2, vec![1], 3), (3, vec![1, 2], 2), (3, vec![1], 2), (3, vec![1], 4)]
+    };
+    for (dir, class, occ) in disc {
+        // The reassembly under test is rustrtc's: the fragments must travel TOWARDS a rustrtc
+        // endpoint.  (The reference stack cannot be the receiver here: webrtc-rs dtls 0.17
+        // `fragment_buffer::append_message` gives up at the first stored fragment with a matching
+        // offset, so a stale first fragment wedges it when the retransmission uses other boundaries -
+        // a limitation of the reference, which would be mis-read as a rustrtc stall.)
+        let receiver_is_rust = match pair {
+            "rust_client_ref_server" => *dir == Dir::S2C,
+            "ref_client_rust_server" => *dir == Dir::C2S,
+            _ => true,
+        };
+        if !receiver_is_rust {
+            continue;
+        }
+        let mut idx = 0usize;
+        for name in class.split('+') {
+            if matches!(name, "CCS" | "Finished" | "App" | "Alert" | "Other" | "HsUnparsable" | "Unparsable") {
+                continue;
+            }
+            let i = idx;
+            idx += 1;
+            if matches!(name, "ServerHelloDone" | "HelloRequest") {
+                continue; // empty body: nothing to split
+            }
+            for (k, lose, k2) in &partial_variants {
+                let a = Act::PartialRefrag { msg: i, k: *k, lose: lose.clone(), k2: *k2 };
+                v.push(json!({"prop":"C11","pair":pair,"plan":[rule_json(*dir, class, *occ, &a)]}));
+            }
+        }
     }
     if tier == Tier::Thorough {
         // all pairs of basic single faults on different datagrams + sampled pairs involving re-fragmentation
@@ -2117,6 +2900,7 @@ async fn discover(pair: &str) -> Result<Vec<(Dir, String, u32)>, String> {
         pair: pair.to_string(),
         mode: Mode::Rules(vec![]),
         tamper: None,
+        takeover: None,
         client_cert: None,
         server_cert: None,
         client_expect: None,
